@@ -693,6 +693,14 @@ func (v *Int) normalize() *Int {
 			for i := bitLen(uint64(v.Hi)); i < w; i++ {
 				v.Bits[i] = bit0
 			}
+			// bits above the highest bit in which the bounds differ are shared by every value in between
+			for i := bitLen(uint64(v.Lo ^ v.Hi)); i < w && i < 63; i++ {
+				if (uint64(v.Lo)>>uint(i))&1 == 1 {
+					v.Bits[i] = bit1
+				} else {
+					v.Bits[i] = bit0
+				}
+			}
 		}
 		if v.Lo == v.Hi && v.Hi < math.MaxInt64 {
 			for i := 0; i < w && i < 63; i++ {
